@@ -1,6 +1,7 @@
 package main
 
 import (
+	"strings"
 	"fmt"
 	"go/constant"
 	"go/token"
@@ -582,6 +583,19 @@ func (e *Exec) typeAssert(x *ssa.TypeAssert, st *State) Value {
 		return IfaceV{ID: iv.ID}
 	}
 	v := e.freshValue("assert", x.AssertedType, st)
+	if !x.CommaOk {
+		if rfc := e.root().fc; rfc != nil {
+			for _, pat := range rfc.AssumeAsserts {
+				if strings.Contains(typeName(x.AssertedType), pat) {
+					e.ctx.assumes["type assertion to "+typeName(x.AssertedType)+" in "+shortKey(e.topName)+" succeeds"]++
+					if pv, isPtr := v.(PtrV); isPtr {
+						e.ctx.assume(Lt(ConstI(0, Ref), pv.Addr))
+					}
+					return v
+				}
+			}
+		}
+	}
 	if x.CommaOk {
 		ok := Fresh("assert.ok", BoolSort)
 		if pv, isPtr := v.(PtrV); isPtr {
